@@ -31,6 +31,12 @@ FACTS = [
     (C('nv', C('f', V('_'))), ('true',)), (C('nv', C('g', V('X'), V('X'))), ('true',)),
     (C('r', V('X')), ('and', ('call', C('foo', V('X'))), ('call', C('\\=', V('X'), A('b'))))),
 ]
+# wide predicates wd/K (one name, many arities): closures over them take many extra arguments
+WIDE = [5, 7, 8, 9, 10, 12, 15]
+WIDE_FACTS = []
+for _k in WIDE:
+    WIDE_FACTS.append((C('wd', *[A('w%d_%d' % (_k, i)) for i in range(_k)]), ('true',)))
+    WIDE_FACTS.append((C('wd', *[A('w%d_%d' % (_k, i)) if i % 3 else A('x') for i in range(_k)]), ('true',)))
 
 
 def plan(tier, seed):
@@ -105,6 +111,14 @@ class G:
         if r < 0.40:
             # call/N with missing arguments
             k = rng.random()
+            if k < 0.12:
+                # a closure over a wide predicate: j arguments inside the goal, the other K-j appended by call/N
+                K = rng.choice(WIDE)
+                j = rng.choice([0, 0, 1, 2, K - 1, K, rng.randrange(K + 1)])
+                args = [self.var() if rng.random() < 0.6 else rng.choice([A('w%d_%d' % (K, i)), A('x')]) for i in range(K)]
+                first = A('wd') if j == 0 else C('wd', *args[:j])
+                self.c['call_with_%d_extra_arguments' % min(K - j, 8)] = 1
+                return C('call', self.maybe_var(first), *args[j:])
             if k < 0.3:
                 return C('call', self.maybe_var(A('foo')), self.var())
             if k < 0.6:
@@ -159,7 +173,8 @@ def gen_case(rng):
             goals.append(('call', C('bar', g.var(), g.var())))
     vars_ = [V('V%d' % i) for i in range(1, g.n + 1)]
     head = C('t', *vars_) if vars_ else A('t')
-    clauses = list(FACTS) + [(head, gen.conj(goals))]
+    wide = WIDE_FACTS if any(k.startswith('call_with_') for k in g.c) else []
+    clauses = list(FACTS) + wide + [(head, gen.conj(goals))]
     return clauses, goals, vars_, g.c
 
 
